@@ -1,5 +1,329 @@
 import Sentinel.Drv.Common
-/-! Driver for C12 (stub: replaced by the property's real driver) -/
+import Sentinel.Model.BreakerRace
+/-!
+Driver for C12.
+
+* `model`  — runs the op file on the small-step model `Sentinel.BreakerRace` (the same `step`/`begin`
+  the theorems of `Sentinel.Props.C12` are about) under the schedule, with the scheduler's conventions
+  (initial advance in thread-id order, entries for finished threads skipped, round-robin drain) and
+  prints one token per granted step: who stepped, from which yield point to which, the shared words
+  afterwards, new listener calls, new TryPass results.
+* `oracle` — reads the **implementation's** trace and judges it: every change of the state word is one
+  won CAS on a legal edge; every won CAS is reported to the listeners exactly once, by the winner, with
+  the right `prev`; `probeNum = 0`: a TryPass returns true only by reading Closed or by winning
+  Open→HalfOpen; no Open→HalfOpen before `openedAt + timeout` — except inside the classified windows
+  of the known findings (`known:<key>`).
+
+Op lines:
+  cb.new <ec|er|sr> <retryTimeoutMs> <minRequestAmount> <threshold: int for ec, f:<bits> for er/sr> <probeNum> <maxRtMs>
+  thread <tid> <call>+         call = tp | tpb | c:<rt>:ok | c:<rt>:err      (tids 0,1,2,… in order)
+  sched <entry>*               entry = <tid> | tick:<ms>
+  results | log | final
+-/
 namespace Sentinel.Drv.C12
-def run (_mode : String) : IO Unit := IO.eprintln "C12: driver not implemented"
+open Sentinel.BreakerRace Sentinel.Drv
+
+def stc : St → String
+  | .closed => "C" | .halfOpen => "H" | .opened => "O"
+
+def stOf? : String → Option St
+  | "C" => some .closed | "H" => some .halfOpen | "O" => some .opened | _ => none
+
+/-- short name of the yield point a thread is parked at -/
+def point : Pc → String
+  | .tpGet _ => "sg" | .tpRetry _ => "rl" | .tpCas .. => "sc" | .rbCas => "sc"
+  | .ocGet .. => "sg" | .ocGet2 => "sg" | .coCas => "sc" | .coStore => "rs"
+  | .hoCas => "sc" | .hoReset => "pr" | .hoStore => "rs" | .paAdd => "pa" | .plLoad => "pl"
+  | .hcCas => "sc" | .hcReset => "pr" | .done => "done"
+
+def tf (b : Bool) : String := if b then "t" else "f"
+def dls (d : Nat) : String := if d = 0 then "-" else toString d
+def noteS (n : Note) : String := s!"{stc n.prev}>{stc n.to}@{n.tid}"
+
+/-- util.Float64Equals precision 0.00000001 -/
+def eps : Float := Float.ofBits 0x3E45798EE2308C3A
+
+def ratioTrip (thr : Float) (b t : Nat) : Bool :=
+  let r := b.toFloat / t.toFloat
+  r > thr || (r - thr).abs < eps
+
+def parseCall? (s : String) : Option Call :=
+  match s.splitOn ":" with
+  | ["tp"] => some (.tryPass false)
+  | ["tpb"] => some (.tryPass true)
+  | ["c", rt, "ok"] => rt.toNat?.map fun r => .complete r false
+  | ["c", rt, "err"] => rt.toNat?.map fun r => .complete r true
+  | _ => none
+
+def parseEnt? (s : String) : Option Ent :=
+  match s.splitOn ":" with
+  | [n] => n.toNat?.map Ent.t
+  | ["tick", ms] => ms.toNat?.bind fun m => if m ≤ 1000000 then some (Ent.tick m) else none
+  | _ => none
+
+def parseCfg? (ts : List String) : Option Cfg :=
+  match ts with
+  | [kind, to, mr, thr, pn, mx] =>
+    match to.toNat?, mr.toNat?, pn.toNat?, mx.toNat? with
+    | some to, some mr, some pn, some mx =>
+      if to = 0 ∨ to > 100000 then none else
+      match kind with
+      | "ec" => thr.toNat?.map fun k =>
+          { timeout := to, minReq := mr, probeNum := pn, slowKind := false, maxRt := mx, trip := fun b _ => decide (k ≤ b) }
+      | "er" => (parseFbits? thr).map fun f =>
+          { timeout := to, minReq := mr, probeNum := pn, slowKind := false, maxRt := mx, trip := ratioTrip f }
+      | "sr" => (parseFbits? thr).map fun f =>
+          { timeout := to, minReq := mr, probeNum := pn, slowKind := true, maxRt := mx, trip := ratioTrip f }
+      | _ => none
+    | _, _, _, _ => none
+  | _ => none
+
+structure DS where
+  cfg : Option Cfg := none
+  sh : Sh := {}                      -- shared words: persist over the phases of a case
+  progs : List (List Call) := []     -- threads declared for the next `sched`
+  fin : Option (List Th) := none     -- threads of the last `sched` (all finished)
+
+/-- the token of one granted step -/
+def token (i : Nat) (frm : String) (s s' : Sh) (t t' : Th) : String :=
+  let ls := (s'.log.drop s.log.length).map fun n => s!":L{stc n.prev}{stc n.to}"
+  let rs := (t'.res.drop t.res.length).map fun b => s!":R{tf b}"
+  s!"{i}:{frm}>{point t'.pc}:{stc s'.st}:{dls s'.deadline}:{s'.probe}:{s'.clock}{String.join ls}{String.join rs}"
+
+/-- one schedule entry on the model, with its trace token (none: tick or skipped entry) -/
+def execT (cfg : Cfg) (c : Conf) (e : Ent) : Conf × Option String :=
+  match e with
+  | .tick _ => (c.exec cfg e, none)
+  | .t i =>
+    match c.th[i]? with
+    | none => (c, none)
+    | some t =>
+      if t.pc = .done then (c, none) else
+      let c' := c.exec cfg e
+      match c'.th[i]? with
+      | some t' => (c', some (token i (point t.pc) c.sh c'.sh t t'))
+      | none => (c', none)
+
+def allDone (c : Conf) : Bool := c.th.all fun t => t.pc = .done
+
+/-- the scheduler's drain: one step each, round-robin, until everybody has finished -/
+def drain (cfg : Cfg) : Nat → Conf → List String → Conf × List String
+  | 0, c, acc => (c, acc)
+  | fuel + 1, c, acc =>
+    if allDone c then (c, acc) else
+    let (c', acc') := (List.range c.th.length).foldl (fun (p : Conf × List String) i =>
+      let (c2, tk) := execT cfg p.1 (.t i)
+      (c2, match tk with | some s => p.2 ++ [s] | none => p.2)) (c, acc)
+    drain cfg fuel c' acc'
+
+/-- the initial advance, with tokens -/
+def startT (cfg : Cfg) (s0 : Sh) (progs : List (List Call)) : Conf × List String :=
+  let c := initFrom cfg s0 progs
+  -- the tokens show the shared words after each thread's own prelude: recompute them incrementally
+  let (_, _, toks) := progs.foldl (fun (p : Sh × Nat × List String) prog =>
+    let (s, i, acc) := p
+    let r := begin cfg s [] prog
+    (r.1, i + 1, acc ++ [token i "start" s r.1 ⟨.done, [], []⟩ r.2])) (s0, 0, [])
+  (c, toks)
+
+def runModel (cfg : Cfg) (s0 : Sh) (progs : List (List Call)) (es : List Ent) : Conf × List String :=
+  let (c0, tk0) := startT cfg s0 progs
+  let (c1, tk1) := es.foldl (fun (p : Conf × List String) e =>
+    let (c2, tk) := execT cfg p.1 e
+    (c2, match tk with | some s => p.2 ++ [s] | none => p.2)) (c0, tk0)
+  drain cfg 10000 c1 tk1
+
+def stepModel (s : DS) (ts : List String) (_ : String) : DS × Option String :=
+  match ts with
+  | "cb.new" :: rest =>
+    match parseCfg? rest with
+    | some cfg => ({ cfg := some cfg }, none)
+    | none => (s, some "bad-op")
+  | "thread" :: tid :: calls =>
+    match s.cfg, tid.toNat?, calls.mapM parseCall? with
+    | some _, some i, some cs =>
+      if i = s.progs.length ∧ ¬ cs.isEmpty ∧ i < 8 then ({ s with progs := s.progs ++ [cs] }, none)
+      else (s, some "bad-op")
+    | _, _, _ => (s, some "bad-op")
+  | "sched" :: es =>
+    match s.cfg, es.mapM parseEnt? with
+    | some cfg, some es =>
+      if es.length > 400 then (s, some "bad-op") else
+      let (c, tks) := runModel cfg s.sh s.progs es
+      ({ s with sh := c.sh, progs := [], fin := some c.th }, some (if tks.isEmpty then "-" else " ".intercalate tks))
+    | _, _ => (s, some "bad-op")
+  | ["results"] =>
+    match s.fin with
+    | some th => (s, some (" ".intercalate ((List.range th.length).zip th |>.map fun (i, t) =>
+        s!"{i}:{showList (t.res.map tf)}")))
+    | none => (s, some "bad-op")
+  | ["log"] =>
+    match s.fin with
+    | some _ => (s, some (showList (s.sh.log.map noteS)))
+    | none => (s, some "bad-op")
+  | ["final"] =>
+    match s.fin with
+    | some _ => (s, some s!"st={stc s.sh.st} dl={dls s.sh.deadline} probe={s.sh.probe} clk={s.sh.clock}")
+    | none => (s, some "bad-op")
+  | _ => (s, some "bad-op")
+
+/-! ## oracle: judge the implementation's trace -/
+
+structure Rec where
+  tid : Nat
+  frm : String
+  to : String
+  st : St
+  dl : Nat
+  probe : Nat
+  clk : Nat
+  logs : List (St × St)
+  ress : List Bool
+
+def parseRec? (tok : String) : Option Rec :=
+  match tok.splitOn ":" with
+  | tid :: ft :: st :: dl :: pr :: clk :: extra =>
+    match tid.toNat?, ft.splitOn ">", stOf? st, (if dl = "-" then some 0 else dl.toNat?), pr.toNat?, clk.toNat? with
+    | some tid, [f, t], some st, some dl, some pr, some clk =>
+      let logs := extra.filterMap fun x =>
+        match x.toList with
+        | ['L', a, b] => match stOf? (String.singleton a), stOf? (String.singleton b) with
+            | some a, some b => some (a, b) | _, _ => none
+        | _ => none
+      let ress := extra.filterMap fun x => if x = "Rt" then some true else if x = "Rf" then some false else none
+      if logs.length + ress.length = extra.length then some ⟨tid, f, t, st, dl, pr, clk, logs, ress⟩ else none
+    | _, _, _, _, _, _ => none
+  | _ => none
+
+structure OS where
+  st : St := .closed
+  hist : List Note := []
+  owed : List Note := []
+  log : List Note := []
+  ress : List (Nat × Bool) := []
+  openedAt : Nat := 0
+  epoch : Nat := 0
+  fresh : Bool := false
+  loads : List (Nat × Nat × Bool) := []   -- tid ↦ (epoch, fresh) at its last deadline load that passed
+  clk : Nat := 0
+  trBad : Option String := none      -- transition rules
+  nfBad : Option String := none      -- notification rules
+  prBad : Option String := none      -- probe exclusivity
+  earlyNoDl : Bool := false
+  earlyStale : Bool := false
+  earlyOut : Bool := false
+
+def orElse (a : Option String) (b : Option String) : Option String := match a with | some x => some x | none => b
+
+def lookupLoad (loads : List (Nat × Nat × Bool)) (tid : Nat) : Option (Nat × Bool) :=
+  (loads.find? fun p => p.1 = tid).map (·.2)
+
+/-- fold one step record of the implementation's trace into the monitors -/
+def judgeRec (timeout probeNum : Nat) (o : OS) (r : Rec) : OS :=
+  let before := o.st
+  let changed := decide (r.st ≠ before)
+  let o := { o with trBad := orElse o.trBad (if r.clk < o.clk then some "clock went backwards" else none), clk := r.clk }
+  -- transitions
+  let o :=
+    if changed then
+      let n : Note := ⟨before, r.st, r.tid⟩
+      let bad := if r.frm ≠ "sc" then some s!"state word changed at {r.frm}, not at a CAS"
+                 else if !legal before r.st then some s!"illegal edge {stc before}>{stc r.st}" else none
+      let opening := r.st = .opened ∧ (r.to = "rs" ∨ r.to = "pr")     -- fromClosedToOpen / fromHalfOpenToOpen (not the rollback)
+      let o := { o with st := r.st, hist := o.hist ++ [n], owed := o.owed ++ [n], trBad := orElse o.trBad bad }
+      let o := if opening then { o with openedAt := r.clk, epoch := o.epoch + 1, fresh := false } else o
+      if before = .opened ∧ r.st = .halfOpen ∧ r.clk < o.openedAt + timeout then
+        match lookupLoad o.loads r.tid with
+        | some (ep, fr) =>
+          if ep ≠ o.epoch then { o with earlyStale := true }
+          else if !fr then { o with earlyNoDl := true } else { o with earlyOut := true }
+        | none => { o with earlyOut := true }
+      else o
+    else o
+  -- deadline store / load bookkeeping
+  let o := if r.frm = "rs" then
+      { o with fresh := true,
+               trBad := orElse o.trBad (if r.dl ≠ r.clk + timeout then some "deadline store is not now+timeout" else none) }
+    else o
+  let o := if r.frm = "rl" ∧ r.to = "sc" then
+      { o with loads := (r.tid, o.epoch, o.fresh) :: o.loads.filter fun p => p.1 ≠ r.tid } else o
+  -- listener calls of this step
+  let o := r.logs.foldl (fun (o : OS) (p : St × St) =>
+      let n : Note := ⟨p.1, p.2, r.tid⟩
+      if o.owed.contains n then { o with owed := o.owed.erase n, log := o.log ++ [n] }
+      else { o with log := o.log ++ [n],
+                    nfBad := orElse o.nfBad (some s!"listener call {noteS n} without a CAS won by that thread with that prev") }) o
+  -- TryPass results of this step
+  r.ress.foldl (fun (o : OS) (b : Bool) =>
+      let okTrue := (r.frm = "sg" ∧ before = .closed) ∨ (r.frm = "sc" ∧ before = .opened ∧ r.st = .halfOpen)
+                    ∨ (probeNum > 0 ∧ r.frm = "sg" ∧ before = .halfOpen)
+      { o with ress := o.ress ++ [(r.tid, b)],
+               prBad := orElse o.prBad (if b ∧ ¬ okTrue then
+                 some s!"thread {r.tid} admitted at {r.frm} while the state word was {stc before}" else none) }) o
+
+structure OD where
+  timeout : Nat := 0
+  probeNum : Nat := 0
+  cfgOk : Bool := false
+  nthreads : Nat := 0                -- threads declared since the last `sched`
+  lastN : Nat := 0                   -- threads of the last `sched`
+  os : Option OS := none
+  parseBad : Bool := false
+
+def verdict (x : Option String) : String := match x with | some w => "bad " ++ w | none => "ok"
+
+def stepOracle (s : OD) (ts : List String) (line : String) : OD × Option String :=
+  match ts with
+  | "cb.new" :: rest =>
+    match parseCfg? rest with
+    | some cfg => ({ timeout := cfg.timeout, probeNum := cfg.probeNum, cfgOk := true }, none)
+    | none => (s, some "bad-op")
+  | "thread" :: _ => ({ s with nthreads := s.nthreads + 1 }, none)
+  | "sched" :: _ =>
+    if !s.cfgOk then (s, some "bad-op") else
+    match resPart line with
+    | none => (s, some "bad-op")
+    | some r =>
+      if r = "bad-op" then (s, some "bad-op") else
+      match (if r = "-" then some [] else (toks r).mapM parseRec?) with
+      | none => ({ s with parseBad := true }, some "bad unreadable trace")
+      | some recs =>
+        let o0 : OS := match s.os with | some o => { o with ress := [], loads := [] } | none => {}
+        let o := recs.foldl (judgeRec s.timeout s.probeNum) o0
+        ({ s with os := some o, lastN := s.nthreads, nthreads := 0 }, some (verdict o.trBad))
+  | ["results"] =>
+    match s.os, resPart line with
+    | some o, some r =>
+      let want := " ".intercalate ((List.range s.lastN).map fun i =>
+        s!"{i}:{showList ((o.ress.filter fun p => p.1 = i).map fun p => tf p.2)}")
+      if r ≠ want then (s, some "bad results differ from the trace") else (s, some (verdict o.prBad))
+    | _, _ => (s, some "bad-op")
+  | ["log"] =>
+    match s.os, resPart line with
+    | some o, some r =>
+      if r ≠ showList (o.log.map noteS) then (s, some "bad listener log differs from the trace")
+      else match o.nfBad with
+      | some w => (s, some ("bad " ++ w))
+      | none =>
+        if ¬ o.owed.isEmpty then (s, some s!"bad transition {noteS (o.owed.headD ⟨.closed, .closed, 0⟩)} was never reported")
+        else if o.log ≠ o.hist then (s, some "known:listener-order")
+        else (s, some "ok")
+    | _, _ => (s, some "bad-op")
+  | ["final"] =>
+    match s.os with
+    | some o =>
+      if o.epoch > 0 ∧ !o.fresh then (s, some "bad the breaker was opened but no retry deadline was stored afterwards")
+      else if o.earlyOut then (s, some "bad probe admitted before a full retry timeout since the breaker opened")
+      else if o.earlyNoDl then (s, some "known:open-without-deadline")
+      else if o.earlyStale then (s, some "known:stale-retry-check")
+      else (s, some "ok")
+    | none => (s, some "bad-op")
+  | _ => (s, some "bad-op")
+
+def run (mode : String) : IO Unit :=
+  match mode with
+  | "model" => loop ({} : DS) stepModel
+  | "oracle" => loop ({} : OD) stepOracle
+  | _ => IO.eprintln s!"C12: unknown mode {mode}"
+
 end Sentinel.Drv.C12
